@@ -195,6 +195,7 @@ def judge_random(case, rec):
     resp = zz9enc.encode(sv, q)
     ref = lib.cube(resp, case["base_tx"]).partitions[0]
     full = lib.cube(resp, case["full_tx"]).partitions[0]
+    lib.warm(full, case.get("warmup"))
     orc = Oracle(sv, q)
     rec.event("shape=" + "x".join(case["shape"]))
     is_date = orc.cols.var.get("flavour") == "cat_date"
